@@ -138,6 +138,9 @@ func (c *Ctx) RunDocs(fams []string, fn DocFn) {
 			workload.W7AdjacentInDocs(sink)
 			workload.W1Pow(sink)
 			workload.W1First(sink)
+			workload.W1RL(sink)
+			workload.W1Len(sink)
+			workload.W7LongPositionsInDocs(sink)
 		case "W2T":
 			workload.W2T(c.Thorough(), sink)
 		case "W2small": // a smaller sample for monitors whose per-case cost is high
